@@ -122,8 +122,10 @@ def st2 (d : Defects) (s : Inst) (room : Nat) (b : Batch) : Inst := deleteNodes 
 /-- state after the rows -/
 def st3 (d : Defects) (s : Inst) (room : Nat) (b : Batch) : Inst := (nodeStage d (st2 d s room b) room b.nodes).1
 
-/-- verdict on one received row given the tables only: passes `filter_existing` and is accepted -/
+/-- verdict on one received row given the tables only: not deleted in the room (once that is checked), passes
+    `filter_existing` and is accepted -/
 def nodeVerdict (d : Defects) (s : Inst) (room : Nat) (n : InNode) : Bool :=
+  (d.announcedDeletedRequested || !deletedIn s room n.row.id) &&
   match filterOne s.nodes (n.row.id, n.annDate, n.annSg) with
   | none => false
   | some e => nodeAccepted d s room (n, e.2)
